@@ -351,7 +351,9 @@ class _rewrite_captured_vars(ast.NodeTransformer):
         return node
 
     def visit_Lambda(self, node: ast.Lambda) -> Any:
-        self._ignore_stack.append([a.arg for a in node.args.args])
+        a = node.args
+        bound = a.posonlyargs + a.args + a.kwonlyargs + [x for x in (a.vararg, a.kwarg) if x]
+        self._ignore_stack.append([x.arg for x in bound])
         v = super().generic_visit(node)
         self._ignore_stack.pop()
         return v
